@@ -1,15 +1,25 @@
 (* C02 - Segments start on random access, respect the minimum duration, cut on parameter changes.
    Only property theorems (each closed by [exact]) and [Print Assumptions].
-   PARTIAL. Proved: the init segment is regenerated exactly when none exists or the segment being
-   published was opened by a forced (parameter-change) rotation, and then captures the tracks'
-   current parameters; a segment opened by a rotation starts at the rotation's DTS / NTP and
-   carries its force flag; every stream of a reachable state satisfies the window invariant.
-   The cut-iff-due biconditional, "every published segment starts with a random-access unit" and
-   "all streams are cut at the same instant" are decided on every run by the correspondence run
-   (model trace vs real muxer, all six codecs) and by the oracle that recomputes the due cuts from
-   the write log alone; they are not yet theorems. *)
+   Proved for every reachable state / every write:
+   - cut exactly when due (fMP4, Low-Latency): a write of the leading track is, after the previous
+     unit has been accepted into the open part, the function [fmp4_tail]; in its result every open
+     stream has its segment counter advanced by one and a new open segment starting at the incoming
+     unit's DTS / NTP iff [due_fmp4] = random access && (parameters changed || elapsed >= SegmentMinDuration),
+     and is otherwise left with the same counter and the same open segment start (parts may rotate);
+   - the same biconditional for the MPEG-TS H264 track and for the audio-only MPEG-TS stream (which
+     additionally needs mpegtsSegmentMinAUCount writes); a non-leading MPEG-TS track never cuts;
+   - all streams are cut at the same instant (every open stream, same DTS / NTP);
+   - every reachable state has exactly one leading stream, so "every open stream" is not vacuous;
+   - the init segment is regenerated exactly when none exists or the segment being published was
+     opened by a forced (parameter-change) rotation, and then captures the tracks' current parameters;
+     a segment opened by a rotation starts at the rotation's DTS / NTP and carries its force flag.
+   PARTIAL in one respect: "every published segment begins with a random-access unit" is a theorem
+   only in the form "a cut happens only at a random-access unit and the new segment starts at that
+   unit's DTS"; that the unit's bytes are the first sample of the published segment is decided on every
+   run by the correspondence run (trace line 6/7: first sample of each part) and by the oracle that
+   decodes the published segments. *)
 From Coq Require Import List ZArith Bool.
-From GoHls Require Import Model.Mux Proofs.MuxStream Proofs.MuxLift Proofs.MuxWindow Proofs.MuxHistory Proofs.MuxSamples.
+From GoHls Require Import Model.Mux Proofs.MuxStream Proofs.MuxLift Proofs.MuxWindow Proofs.MuxHistory Proofs.MuxSamples Proofs.MuxCut.
 Import ListNotations.
 Local Open Scope Z_scope.
 
@@ -31,3 +41,80 @@ Theorem c02_streams_window_partial : forall c ops m0,
   Forall (WInv (c_variant (norm_cfg c)) (c_segcount (norm_cfg c))) (m_streams (mux_run m0 ops)).
 Proof. exact window_inv_reachable. Qed.
 Print Assumptions c02_streams_window_partial.
+
+(* ---- a new segment is started exactly when due ---- *)
+Theorem c02_fmp4_leading_write_is_tail : forall m ti t prev ra pc smp0 m4 s,
+  nth_error (m_tracks m) ti = Some t -> tk_leading t = true -> tk_next t = Some prev ->
+  0 <= s_dts smp0 + durationToTimestamp fmp4StartDTS (t_rate (tk_cfg t)) ->
+  part_writeSample (fst (fmp4_pre m ti t prev smp0)) ti (tk_stream t) (snd (fmp4_pre m ti t prev smp0)) = Ok m4 ->
+  nth_error (m_streams m4) (tk_stream t) = Some s ->
+  fmp4WriteSample m ti ra pc smp0 =
+  wok (fmp4_tail m4 s ra pc
+         (timestampToDuration (s_dts smp0 + durationToTimestamp fmp4StartDTS (t_rate (tk_cfg t))) (t_rate (tk_cfg t)))
+         (s_ntp smp0)).
+Proof. exact fmp4WriteSample_leading. Qed.
+Print Assumptions c02_fmp4_leading_write_is_tail.
+
+Theorem c02_cut_iff_due_fmp4 : forall m4 s ra pc nextD ntp sl,
+  leading_stream m4 = Some sl -> st_leading sl = true ->
+  forall j sj, nth_error (m_streams m4) j = Some sj -> st_open sj <> None ->
+               (j = leading_index m4 \/ st_leading sj = false) ->
+  exists sj', nth_error (m_streams (fmp4_tail m4 s ra pc nextD ntp)) j = Some sj'
+              /\ CutIff (due_fmp4 m4 s ra pc nextD) nextD ntp sj sj'.
+Proof. exact fmp4_cut_iff_due. Qed.
+Print Assumptions c02_cut_iff_due_fmp4.
+
+Theorem c02_cut_only_at_random_access : forall m4 s ra pc nextD,
+  due_fmp4 m4 s ra pc nextD = true -> ra = true.
+Proof. intros m4 s ra pc nextD H. unfold due_fmp4 in H. now apply andb_true_iff in H. Qed.
+Print Assumptions c02_cut_only_at_random_access.
+
+Theorem c02_cut_iff_due_mpegts_video : forall m ti t a sl s,
+  c_variant (m_cfg m) = MPEGTS -> t_kind (tk_cfg t) = H264 ->
+  negb (a_ra a) && negb (a_nonidr a) = false -> negb (tk_firstRA t) && negb (a_ra a) = false ->
+  nth_error (m_streams m) (tk_stream t) = Some s -> st_open s <> None ->
+  leading_stream m = Some sl -> st_leading sl = true ->
+  let d := timestampToDuration (a_dts a) (t_rate (tk_cfg t)) in
+  let due := a_ra a && ((c_segmin (m_cfg m) <=? d - stream_open_start s) || snd (video_params m ti t a true)) in
+  forall j sj, nth_error (m_streams m) j = Some sj -> st_open sj <> None ->
+               (j = leading_index m \/ st_leading sj = false) ->
+  exists sj', nth_error (m_streams (fst (write_video m ti t a))) j = Some sj' /\ CutIff due d (a_ntp a) sj sj'.
+Proof. exact ts_video_cut_iff_due. Qed.
+Print Assumptions c02_cut_iff_due_mpegts_video.
+
+Theorem c02_cut_iff_due_mpegts_audio_only : forall m ti t a sl s seg,
+  c_variant (m_cfg m) = MPEGTS -> tk_leading t = true ->
+  nth_error (m_streams m) (tk_stream t) = Some s -> st_open s = Some seg ->
+  leading_stream m = Some sl -> st_leading sl = true ->
+  let d := timestampToDuration (a_pts a) (t_rate (tk_cfg t)) in
+  let due := (mpegtsSegmentMinAUCount <=? sg_aucount seg) && (c_segmin (m_cfg m) <=? d - sg_start seg) in
+  forall j sj, nth_error (m_streams m) j = Some sj -> st_open sj <> None ->
+               (j = leading_index m \/ st_leading sj = false) ->
+  exists sj', nth_error (m_streams (fst (write_audio m ti t a))) j = Some sj' /\ CutIff due d (a_ntp a) sj sj'.
+Proof. exact ts_audio_cut_iff_due. Qed.
+Print Assumptions c02_cut_iff_due_mpegts_audio_only.
+
+Theorem c02_mpegts_nonleading_never_cuts : forall m ti t a j sj,
+  c_variant (m_cfg m) = MPEGTS -> tk_leading t = false ->
+  nth_error (m_streams m) j = Some sj ->
+  exists sj', nth_error (m_streams (fst (write_audio m ti t a))) j = Some sj' /\ Same sj sj'.
+Proof. exact ts_audio_nonleading_never_cuts. Qed.
+Print Assumptions c02_mpegts_nonleading_never_cuts.
+
+(* ---- all streams are cut at that same instant ---- *)
+Theorem c02_all_streams_cut_together : forall m d ntp f sl,
+  leading_stream m = Some sl -> st_leading sl = true ->
+  forall j s, nth_error (m_streams m) j = Some s -> st_open s <> None ->
+              (j = leading_index m \/ st_leading s = false) ->
+  exists s', nth_error (m_streams (rotateSegments m d ntp f)) j = Some s' /\ Cut d ntp s s'.
+Proof. exact rotateSegments_cuts_all. Qed.
+Print Assumptions c02_all_streams_cut_together.
+
+(* ---- the side conditions above hold in every reachable state ---- *)
+Theorem c02_one_leading_stream_reachable : forall c m0 ops,
+  start c = Ok m0 ->
+  let m := mux_run m0 ops in
+  exists sl, leading_stream m = Some sl /\ st_leading sl = true
+             /\ forall j s, nth_error (m_streams m) j = Some s -> st_leading s = true -> j = leading_index m.
+Proof. exact reachable_one_leading. Qed.
+Print Assumptions c02_one_leading_stream_reachable.
